@@ -161,6 +161,9 @@ pub struct World {
     /// forces the outline data length of one glyph (used to land totals exactly on offset-size limits)
     #[serde(default)]
     pub len_adjust: Option<(u32, u32)>,
+    /// patches carry streams of the simulated, dictionary-sensitive codec instead of stored brotli
+    #[serde(default)]
+    pub sim_codec: bool,
 }
 
 /// Everything of a minimal CFF / CFF2 table that precedes the charstrings INDEX (which the IFT
@@ -533,10 +536,19 @@ impl World {
                     n.other.insert(*tag, opaque_bytes(*seed, *len));
                 }
                 Op::Diff { tag, seed, len } => {
-                    if !m.other.contains_key(tag) {
+                    let Some(old) = m.other.get(tag) else {
                         return Err("diff against a table the font does not have".into());
+                    };
+                    let mut new = opaque_bytes(*seed, *len);
+                    if self.sim_codec {
+                        // simulated codec: the diff ends with a copy of the first bytes of its dictionary (the base table)
+                        let k = diff_copy_len(*seed) as usize;
+                        if k > old.len() {
+                            return Err("diff copies more bytes than its base table has".into());
+                        }
+                        new.extend_from_slice(&old[..k]);
                     }
-                    n.other.insert(*tag, opaque_bytes(*seed, *len));
+                    n.other.insert(*tag, new);
                 }
                 Op::Drop { tag } => {
                     n.other.remove(tag);
@@ -674,20 +686,20 @@ impl World {
         match &self.patches[e.patch] {
             Patch::Glyph { gids, tables, wide, alt } => {
                 let data = tables.iter().map(|t| gids.iter().map(|g| self.glyph_data(t, *g, *alt)).collect()).collect();
-                encode::glyph_keyed_patch(&v.compat, &GlyphPatchSpec { wide: *wide, gids: gids.clone(), tables: tables.clone(), data }, None)
+                encode::glyph_keyed_patch(&v.compat, &GlyphPatchSpec { wide: *wide, gids: gids.clone(), tables: tables.clone(), data }, None, self.sim_codec)
             }
             Patch::Table { ops } => {
                 let ops: Vec<TableOp> = ops
                     .iter()
                     .map(|op| match op {
-                        Op::ReplaceMap { slot, version } => TableOp { tag: if *slot == 0 { IFT } else { IFTX }, flags: 1, data: self.map_table_bytes(*version, &BTreeSet::new()), max_len: None },
-                        Op::DropMap { slot } => TableOp { tag: if *slot == 0 { IFT } else { IFTX }, flags: 2, data: vec![], max_len: None },
-                        Op::Replace { tag, seed, len } => TableOp { tag: *tag, flags: 1, data: opaque_bytes(*seed, *len), max_len: None },
-                        Op::Diff { tag, seed, len } => TableOp { tag: *tag, flags: 0, data: opaque_bytes(*seed, *len), max_len: None },
-                        Op::Drop { tag } => TableOp { tag: *tag, flags: 2, data: vec![], max_len: None },
+                        Op::ReplaceMap { slot, version } => TableOp { tag: if *slot == 0 { IFT } else { IFTX }, flags: 1, data: self.map_table_bytes(*version, &BTreeSet::new()), max_len: None, copy: 0 },
+                        Op::DropMap { slot } => TableOp { tag: if *slot == 0 { IFT } else { IFTX }, flags: 2, data: vec![], max_len: None, copy: 0 },
+                        Op::Replace { tag, seed, len } => TableOp { tag: *tag, flags: 1, data: opaque_bytes(*seed, *len), max_len: None, copy: 0 },
+                        Op::Diff { tag, seed, len } => TableOp { tag: *tag, flags: 0, data: opaque_bytes(*seed, *len), max_len: None, copy: diff_copy_len(*seed) },
+                        Op::Drop { tag } => TableOp { tag: *tag, flags: 2, data: vec![], max_len: None, copy: 0 },
                     })
                     .collect();
-                encode::table_keyed_patch(&v.compat, &ops)
+                encode::table_keyed_patch(&v.compat, &ops, self.sim_codec)
             }
         }
     }
@@ -696,6 +708,11 @@ impl World {
     pub fn base_font(&self) -> Vec<u8> {
         realise(self, &self.initial_model())
     }
+}
+
+/// Number of dictionary bytes a simulated-codec diff copies (a function of the patch, fixed at "encode time").
+pub fn diff_copy_len(seed: u64) -> u32 {
+    ((seed >> 11) % 7) as u32
 }
 
 pub fn loca_glyf_bytes(glyphs: &[Vec<u8>], long: bool) -> (Vec<u8>, Vec<u8>) {
@@ -1024,6 +1041,13 @@ impl Gen<'_> {
                 entries[i - 1].id.clone()
             } else if string_ids {
                 let mut sid = format!("e{}", i).into_bytes();
+                // ids are opaque bytes: some start with zero bytes (which numeric ids drop and string ids keep)
+                if self.rng.chance(1, 6) {
+                    let zeros = 1 + self.rng.below(2) as usize;
+                    for _ in 0..zeros {
+                        sid.insert(0, 0);
+                    }
+                }
                 if self.rng.chance(1, 3) {
                     let extra = 1 + self.rng.below(3) as usize;
                     let bytes = self.rng.bytes(extra);
@@ -1179,7 +1203,7 @@ pub fn gen_world(rng: &mut Rng) -> World {
     let r0 = g.version(0, 0, has_gvar, two);
     let r1 = if two { Some(g.version(0, 1, has_gvar, true)) } else { None };
     let (versions, patches) = (g.versions, g.patches);
-    let mut w = World { n_glyphs, loca_long, has_gvar, gvar_long, data_seed, base_gids, big_gids, opaque, versions, roots: [Some(r0), r1], patches, carrier, cff_off_size0: 1, len_adjust: None };
+    let mut w = World { n_glyphs, loca_long, has_gvar, gvar_long, data_seed, base_gids, big_gids, opaque, versions, roots: [Some(r0), r1], patches, carrier, cff_off_size0: 1, len_adjust: None, sim_codec: false };
     if w.carrier != 0 {
         let tag = w.outline_tag();
         for p in w.patches.iter_mut() {
@@ -1231,5 +1255,6 @@ pub fn gen_world(rng: &mut Rng) -> World {
     if w.has_gvar && !w.gvar_long && base_total(&w, &GVAR) > 0xFFFF * 2 {
         w.gvar_long = true;
     }
+    w.sim_codec = rng.chance(1, 3);
     w
 }
